@@ -266,6 +266,9 @@ func ProbeMainSource(modPath string, engines []string) string {
 	if has["gin"] {
 		imp.WriteString("\t\"github.com/gin-gonic/gin\"\n")
 		setup.WriteString(`	gin.SetMode(gin.ReleaseMode)
+	// every router is first registered on a throw-away engine instance: the instance that serves the
+	// workload is the SECOND one of this process (registration must not depend on an earlier one)
+	register("gin", func() { rgin.RegisterRoutes(gin.New()) })
 	ginEngine := gin.New()
 	if register("gin", func() { rgin.RegisterRoutes(ginEngine) }) {
 		servers["gin"] = func(req *http.Request) *http.Response { return serve(ginEngine, req) }
@@ -275,7 +278,8 @@ func ProbeMainSource(modPath string, engines []string) string {
 	}
 	if has["echo"] {
 		imp.WriteString("\t\"github.com/labstack/echo/v4\"\n")
-		setup.WriteString(`	echoEngine := echo.New()
+		setup.WriteString(`	register("echo", func() { recho.RegisterRoutes(echo.New()) })
+	echoEngine := echo.New()
 	echoEngine.HideBanner = true
 	if register("echo", func() { recho.RegisterRoutes(echoEngine) }) {
 		servers["echo"] = func(req *http.Request) *http.Response { return serve(echoEngine, req) }
@@ -285,7 +289,8 @@ func ProbeMainSource(modPath string, engines []string) string {
 	}
 	if has["mux"] {
 		imp.WriteString("\t\"github.com/gorilla/mux\"\n")
-		setup.WriteString(`	muxEngine := mux.NewRouter()
+		setup.WriteString(`	register("mux", func() { rmux.RegisterRoutes(mux.NewRouter()) })
+	muxEngine := mux.NewRouter()
 	if register("mux", func() { rmux.RegisterRoutes(muxEngine) }) {
 		servers["mux"] = func(req *http.Request) *http.Response { return serve(muxEngine, req) }
 	}
@@ -294,7 +299,8 @@ func ProbeMainSource(modPath string, engines []string) string {
 	}
 	if has["chi"] {
 		imp.WriteString("\t\"github.com/go-chi/chi/v5\"\n")
-		setup.WriteString(`	chiEngine := chi.NewRouter()
+		setup.WriteString(`	register("chi", func() { rchi.RegisterRoutes(chi.NewRouter()) })
+	chiEngine := chi.NewRouter()
 	if register("chi", func() { rchi.RegisterRoutes(chiEngine) }) {
 		servers["chi"] = func(req *http.Request) *http.Response { return serve(chiEngine, req) }
 	}
@@ -303,7 +309,8 @@ func ProbeMainSource(modPath string, engines []string) string {
 	}
 	if has["fiber"] {
 		imp.WriteString("\t\"github.com/gofiber/fiber/v2\"\n")
-		setup.WriteString(`	fiberEngine := fiber.New(fiber.Config{UnescapePath: true, DisableStartupMessage: true})
+		setup.WriteString(`	register("fiber", func() { rfiber.RegisterRoutes(fiber.New(fiber.Config{UnescapePath: true, DisableStartupMessage: true})) })
+	fiberEngine := fiber.New(fiber.Config{UnescapePath: true, DisableStartupMessage: true})
 	if register("fiber", func() { rfiber.RegisterRoutes(fiberEngine) }) {
 		servers["fiber"] = func(req *http.Request) *http.Response {
 			resp, err := fiberEngine.Test(req, -1)
